@@ -583,6 +583,7 @@ type caseOpts struct {
 	filterAllowReturn bool
 	disableCtInvalid  bool
 	profilePass       bool
+	extraPkts         []packet // probe packets a layout wants evaluated in addition to the derived ones
 }
 
 func genEndpoint(r *rng, u *universe, o *caseOpts) ([]*gtier, []*gprofile, []string) {
@@ -1048,6 +1049,9 @@ func buildCase(r *rng, o *caseOpts, u *universe, tiers []*gtier, profs []*gprofi
 	if forcedPkts != nil {
 		pkts = forcedPkts
 	} else {
+		for _, p := range o.extraPkts {
+			addP(p)
+		}
 		order := make([]int, len(allRules))
 		for i := range order {
 			order[i] = i
@@ -1324,6 +1328,103 @@ func corpusProfilePass(r *rng, nft bool) (*line, error) {
 	return c, nil
 }
 
+// genStrideConflict: a layout aimed at the RETURN stride of group chains.  One tier holds one long group of
+// 11..17 enforced policies (staged ones interleaved); a chosen packet first matches an allow/pass rule in enforced
+// policy a (in the second or third block of five) and a rule with a CONFLICTING action in the first policy of a
+// later block (enforced position 11 or 16); every other policy of the group does not match the packet.  A group
+// chain that evaluates a policy of a later block after a verdict gives the wrong answer on that packet.
+func genStrideConflict(r *rng, u *universe, o *caseOpts) ([]*gtier, []*gprofile, []string) {
+	nEnf := 11 + r.intn(7) // 11..17
+	later := 11            // enforced position (1-based) of the conflicting policy: first of the third block ...
+	if nEnf >= 16 && r.chance(75) {
+		later = 16 // ... or of the fourth
+	}
+	first := later - 5 + r.intn(5) // 6..10 or 11..15: in the block before
+	if later == 16 && r.chance(30) {
+		first = 6 + r.intn(5) // two blocks before
+	}
+	firstAct := []string{"allow", "pass", "next-tier", "pass"}[r.intn(4)]
+	laterAct := "deny"
+	if firstAct != "allow" && r.chance(50) {
+		laterAct = "allow"
+	}
+	ports := []int{80, 443, 8080, 53}
+	hit := ports[r.intn(len(ports))]
+	pk := packet{proto: 6, src: u.addrs[r.intn(len(u.addrs))], dst: u.addrs[r.intn(len(u.addrs))], sport: 1000, dport: hit, ct: "CtNew"}
+	mkRule := func(action string, port int) *grule {
+		return &grule{action: action, proto: 6, protoByName: r.chance(50), notProto: -1, icmpType: -1, dstPorts: []prange{{port, port}}}
+	}
+	miss := func() *grule {
+		for {
+			q := ports[r.intn(len(ports))]
+			if q != hit {
+				return mkRule([]string{"allow", "deny", "pass", "log"}[r.intn(4)], q)
+			}
+		}
+	}
+	tr := &gtier{name: "tier0", defaultAction: []string{"Deny", "Pass", ""}[r.intn(3)]}
+	g := &ggroup{}
+	polN := 0
+	addPol := func(staged bool, rule *grule) {
+		polN++
+		p := &gpolicy{hasIn: true, hasOut: true, staged: staged}
+		kind := []string{"GlobalNetworkPolicy", "NetworkPolicy"}[r.intn(2)]
+		if staged {
+			kind = "Staged" + kind
+		}
+		p.id = types.PolicyID{Name: fmt.Sprintf("tier0.sp%d", polN), Kind: kind}
+		if strings.HasSuffix(kind, "NetworkPolicy") && !strings.Contains(kind, "Global") {
+			p.id.Namespace = "ns1"
+		}
+		p.in, p.out = []*grule{rule}, []*grule{rule}
+		g.pols = append(g.pols, p)
+	}
+	for k := 1; k <= nEnf; k++ {
+		for r.chance(20) {
+			// a staged policy in between; it may match the packet with any action: it must not count
+			addPol(true, mkRule([]string{"allow", "deny", "pass"}[r.intn(3)], hit))
+		}
+		switch k {
+		case first:
+			addPol(false, mkRule(firstAct, hit))
+		case later:
+			addPol(false, mkRule(laterAct, hit))
+		default:
+			addPol(false, miss())
+		}
+	}
+	tr.groupsIn, tr.groupsOut = []*ggroup{g}, []*ggroup{g}
+	tiers := []*gtier{tr}
+	if r.chance(50) {
+		// a second tier and a profile that decide the other way once the first tier passes
+		t2 := &gtier{name: "tier1", defaultAction: "Deny"}
+		g2 := &ggroup{}
+		p2 := &gpolicy{hasIn: true, hasOut: true, id: types.PolicyID{Name: "tier1.after", Kind: "GlobalNetworkPolicy"}}
+		p2.in, p2.out = []*grule{mkRule("deny", hit)}, []*grule{mkRule("deny", hit)}
+		g2.pols = []*gpolicy{p2}
+		t2.groupsIn, t2.groupsOut = []*ggroup{g2}, []*ggroup{g2}
+		tiers = append(tiers, t2)
+	}
+	var profs []*gprofile
+	if r.chance(60) {
+		profs = []*gprofile{{name: "prof0", in: []*grule{mkRule("deny", hit)}, out: []*grule{mkRule("deny", hit)}}}
+	}
+	pk2 := pk
+	pk2.dport = ports[(r.intn(3)+1+indexOf(ports, hit))%len(ports)]
+	o.extraPkts = []packet{pk, pk2}
+	return tiers, profs, []string{"layout:stride-conflict", fmt.Sprintf("stride-conflict:first-verdict-at-%d-conflict-at-%d", first, later),
+		"stride-conflict:" + firstAct + "-then-" + laterAct}
+}
+
+func indexOf(xs []int, x int) int {
+	for i, y := range xs {
+		if y == x {
+			return i
+		}
+	}
+	return 0
+}
+
 func main() {
 	n := flag.Int("n", 100, "cases")
 	seed := flag.Uint64("seed", 1, "seed")
@@ -1367,7 +1468,14 @@ func main() {
 		}
 		u := newUniverse(o.ver)
 		w := genSets(r, u)
-		tiers, profs, tags := genEndpoint(r, u, o)
+		var tiers []*gtier
+		var profs []*gprofile
+		var tags []string
+		if r.chance(14) {
+			tiers, profs, tags = genStrideConflict(r, u, o)
+		} else {
+			tiers, profs, tags = genEndpoint(r, u, o)
+		}
 		if o.kind == "hep-fwd" || o.kind == "hep-raw" || o.kind == "hep-mangle" {
 			profs = nil // these chains render no profile jumps; no profile chains are programmed for them here
 		}
